@@ -39,6 +39,10 @@ static const profile_t PROFILES[] = {
       0, 0, (1u << P_T), (1u << T_T), (1u << K_TMR), 1 },
     { "C20", 2, G_SRC | G_READY | G_ENV | G_LIFE | G_PILL | G_ARM | G_REFS | G_REG,          RL_BASE | R_SR | R_FD,              1, "01000100", 1, 1, 1,
       (1u << A_DEREG) | (1u << A_RETAIN) | (1u << A_STOP), (1u << CB_EVT) | (1u << CB_START), 0, 0, (1u << K_FD) | (1u << K_TMR), 0xff },
+    { "C04", 2, G_LIFE | G_REG | G_MSG | G_SUB | G_BCAST | G_AUTOFREE | G_PILL | G_ARM | G_QUIT | G_STASH | G_BECOME | G_SRC | G_READY | G_ENV | G_REFS | G_FAULT | G_BATCH,
+      RL_BASE | R_PS | R_FREE | R_SH | R_HD | R_SR | R_PILL | R_EV, 2, "01000100" "07000100" "07010100" "04000000", 1, 1, 1,
+      (1u << A_STOP) | (1u << A_DEREG) | (1u << A_PAUSE) | (1u << A_UNSUB) | (1u << A_TELL) | (1u << A_PUB) | (1u << A_STASH) | (1u << A_UNSTASH) | (1u << A_RETAIN) | (1u << A_QUIT),
+      0xf, (1u << P_T) | (1u << P_DOT), (1u << T_T), (1u << K_FD) | (1u << K_TMR), 0x7 },
     { "SMOKE", 2, G_LIFE | G_REG | G_MSG | G_QUIT,                                          RL_BASE | R_EV | R_PS,              0, "01000100", 1, 0, 1, 0, 0, 0, 0 },
 };
 #define NPROFILES ((int)(sizeof PROFILES / sizeof *PROFILES))
